@@ -1,7 +1,7 @@
 (* Lemmas about Model/Refine.v (what happens to the optimiser's result before it is stored) at the real-number
    instance [RNumOf lo hi].  The theorems of Properties/C12.v are these lemmas.
    The optimiser is not modelled: every statement quantifies over ALL raw vectors of the box. *)
-From Coq Require Import Reals Lra List Bool.
+From Coq Require Import Reals Lra List Bool Sorted Permutation Lia Arith.
 From V Require Import Model.Num Model.NumR Model.DailyCurve Model.Refine Proofs.DailyCurveProofs.
 Import ListNotations.
 Local Open Scope R_scope.
@@ -1113,3 +1113,109 @@ Proof.
     rewrite (rs_tidd lo hi _ 0 0 0 0 0 0 i) by reflexivity. reflexivity.
 Qed.
 End Idem.
+
+(* ---------------- get_T_bnds: the recorded temperature limits *)
+Section TBnds.
+Variables lo hi : R.
+Notation N := (RNumOf lo hi).
+
+Lemma insert_sorted_perm : forall (x : R) (l : list R), Permutation (x :: l) (insert_sorted N x l).
+Proof.
+  intros x l. induction l as [|y r IH]; cbn; [reflexivity|].
+  destruct (Rleb x y); [reflexivity|]. rewrite perm_swap. apply perm_skip. exact IH.
+Qed.
+
+Lemma sort_list_perm : forall l : list R, Permutation l (sort_list N l).
+Proof.
+  induction l as [|x l IH]; cbn; [reflexivity|]. rewrite <- insert_sorted_perm. apply perm_skip. exact IH.
+Qed.
+
+Lemma insert_sorted_sorted : forall (x : R) (l : list R), StronglySorted Rle l -> StronglySorted Rle (insert_sorted N x l).
+Proof.
+  intros x l H. induction H as [|y r Hr IH Hy]; cbn.
+  - constructor; constructor.
+  - destruct (Rleb x y) eqn:E.
+    + apply Rleb_true in E. constructor; [constructor; assumption|].
+      constructor; [exact E|]. eapply Forall_impl; [|exact Hy]. intros a Ha. cbn in Ha. lra.
+    + apply Rleb_false in E. constructor; [exact IH|].
+      apply (Permutation_Forall (insert_sorted_perm x r)). constructor; [lra | exact Hy].
+Qed.
+
+Lemma sort_list_sorted : forall l : list R, StronglySorted Rle (sort_list N l).
+Proof. induction l as [|x l IH]; cbn; [constructor | apply insert_sorted_sorted; exact IH]. Qed.
+
+Lemma sort_list_length : forall l : list R, @length R (sort_list N l) = length l.
+Proof. intros l. symmetry. apply Permutation_length. apply sort_list_perm. Qed.
+
+Lemma sort_list_length' : forall l : list R, @length N (sort_list N l) = length l.
+Proof. exact sort_list_length. Qed.
+
+Lemma sorted_nth_le : forall (l : list R) d i j, StronglySorted Rle l -> (i <= j)%nat -> (j < length l)%nat ->
+  nth i l d <= nth j l d.
+Proof.
+  intros l d i j H. revert i j. induction H as [|y r Hr IH Hy]; intros i j Hij Hj; cbn in Hj; [lia|].
+  destruct i as [|i]; destruct j as [|j]; cbn; try lra; try lia.
+  - rewrite Forall_forall in Hy. apply Hy. apply nth_In. lia.
+  - apply IH; lia.
+Qed.
+
+(* shape of a successful call *)
+Lemma get_T_bnds_some : forall (T : list R) n tc, get_T_bnds N T n = Some tc ->
+  let s := sort_list N T in
+  (n < length T)%nat /\
+  tc = Build_tconstr N (nth 0 s 0) (nth (length T - 1) s 0) (nth n s 0)
+                       (nth (match n with O => O | _ => length T - n end) s 0).
+Proof.
+  intros T n tc H. unfold get_T_bnds in H. cbv zeta in H. rewrite sort_list_length in H.
+  destruct (sort_list N T) as [|t0 r] eqn:Es; [discriminate|].
+  destruct (Nat.ltb n (length T)) eqn:El; [|discriminate]. apply Nat.ltb_lt in El.
+  injection H as H. split; [exact El|]. subst tc.
+  assert (Hlen : length (t0 :: r) = length T) by (rewrite <- Es; apply sort_list_length).
+  rewrite !(nth_indep (t0 :: r) 0 t0) by (rewrite Hlen; destruct n; lia). reflexivity.
+Qed.
+
+(* the limits are ordered as soon as the two outer segments do not overlap: 2 n <= number of fitted days *)
+Theorem get_T_bnds_ordered : forall (T : list R) n tc, get_T_bnds N T n = Some tc -> (2 * n <= length T)%nat ->
+  bounds_ok lo hi tc.
+Proof.
+  intros T n tc H Hn. destruct (get_T_bnds_some T n tc H) as [Hlt Htc]. subst tc.
+  pose proof (sort_list_sorted T) as Hs. pose proof (sort_list_length T) as Hl.
+  unfold bounds_ok. cbn [T_min T_max T_min_seg T_max_seg].
+  repeat split; apply sorted_nth_le; try exact Hs; rewrite ?Hl; destruct n; lia.
+Qed.
+
+(* every recorded limit is the temperature of a fitted day *)
+Theorem get_T_bnds_members : forall (T : list R) n tc, get_T_bnds N T n = Some tc ->
+  In (T_min tc) T /\ In (T_max tc) T /\ In (T_min_seg tc) T /\ In (T_max_seg tc) T.
+Proof.
+  intros T n tc H. destruct (get_T_bnds_some T n tc H) as [Hlt Htc]. subst tc.
+  pose proof (sort_list_length T) as Hl. cbn [T_min T_max T_min_seg T_max_seg].
+  assert (Hin : forall i, (i < length T)%nat -> In (nth i (sort_list N T) 0) T).
+  { intros i Hi. apply (Permutation_in _ (Permutation_sym (sort_list_perm T))). apply nth_In. rewrite ?Hl, ?(sort_list_length' T). exact Hi. }
+  repeat split; apply Hin; destruct n; lia.
+Qed.
+
+(* T_min / T_max bound every fitted day; T_min_seg / T_max_seg leave at least n days outside on either side *)
+Theorem get_T_bnds_range : forall (T : list R) n tc, get_T_bnds N T n = Some tc ->
+  forall t, In t T -> T_min tc <= t <= T_max tc.
+Proof.
+  intros T n tc H t Ht. destruct (get_T_bnds_some T n tc H) as [Hlt Htc]. subst tc.
+  pose proof (sort_list_sorted T) as Hs. pose proof (sort_list_length T) as Hl.
+  cbn [T_min T_max].
+  apply (Permutation_in _ (sort_list_perm T)) in Ht.
+  destruct (In_nth _ _ 0 Ht) as (i & Hi & Hnth). rewrite ?Hl, ?(sort_list_length' T) in Hi. rewrite <- Hnth.
+  split; apply sorted_nth_le; try exact Hs; rewrite ?Hl; lia.
+Qed.
+
+(* composition with refine_admissible: no hypothesis on the limits is left, they come from the fitted days *)
+Theorem fitted_component_admissible : forall (T : list R) n tc qlo qhi key raw,
+  get_T_bnds N T n = Some tc -> (2 * n <= length T)%nat ->
+  box_spec (T_min tc) (T_max tc) qlo qhi key raw ->
+  exists c, named_coeffs N key raw tc = Some c /\
+            wellformed lo hi (T_min tc) (T_max tc) (T_min_seg tc) (T_max_seg tc) qlo qhi c.
+Proof.
+  intros T n tc qlo qhi key raw H Hn B.
+  pose proof (get_T_bnds_ordered T n tc H Hn) as Hb. destruct tc as [a b c d]. cbn [T_min T_max T_min_seg T_max_seg] in *.
+  exact (refine_admissible lo hi a b c d qlo qhi Hb key raw B).
+Qed.
+End TBnds.
